@@ -5013,6 +5013,16 @@ def _svd_worker(a, full_matrices, compute_uv, overwrite_a, cutoff, qtotal_LR, in
         qi_L, qi_R = a._qdata.T
         U_qdata = np.stack([qi_L, qi_L], axis=1).astype(np.intp)
         VH_qdata = np.stack([qi_R, qi_R], axis=1).astype(np.intp)
+        # charge sectors of a leg without a block in `a`: add identity blocks to make U and VH unitary
+        for leg, qi_have, data in [(a.legs[0], qi_L, U_data), (a.legs[1], qi_R, VH_data)]:
+            qi_missing = np.array([qi for qi in range(leg.block_number) if qi not in qi_have], np.intp)
+            for qi in qi_missing:
+                data.append(np.eye(leg.slices[qi + 1] - leg.slices[qi], dtype=a.dtype))
+            if leg is a.legs[0]:
+                U_qdata = np.concatenate([U_qdata, np.stack([qi_missing, qi_missing], axis=1)], axis=0)
+                qi_L = U_qdata[:, 0]
+            else:
+                VH_qdata = np.concatenate([VH_qdata, np.stack([qi_missing, qi_missing], axis=1)], axis=0)
     else:
         blocks_kept = np.array(blocks_kept, np.intp)
         nblocks = blocks_kept.shape[0]
@@ -5034,7 +5044,7 @@ def _svd_worker(a, full_matrices, compute_uv, overwrite_a, cutoff, qtotal_LR, in
     VH._qdata = VH_qdata
     if full_matrices:
         U._qdata_sorted = np.all(qi_L[:-1] < qi_L[1:])
-        VH._qdata_sorted = a._qdata_sorted
+        VH._qdata_sorted = a._qdata_sorted and len(VH_data) == len(a._data)
     else:
         U._qdata_sorted = a._qdata_sorted
         VH._qdata_sorted = a._qdata_sorted
